@@ -26,6 +26,8 @@ by their documented length contracts:
       `for` loop from an arbitrary state with len < count (one processor moved; break exactly at
       count; back to the outer head with len <= count).
   S5  policy RequireDifferent: None iff fewer than n regions, else one element per each of n regions.
+  S6  policy PreferSame, the region sort key closure returns min(candidates in the region, n) (regions
+      that can satisfy the request alone are visited first: "as few regions as possible").
 
 A satisfying assignment is turned into fake hardware (region sizes) and replayed through the public
 API of the real crate (native/selection_replay, `many_cpus` with its `test-util` feature) before it is
@@ -576,6 +578,49 @@ def s5_require_different(fn, funcs, out):
     return viol
 
 
+def s6_prefer_same_sort_key(funcs, out):
+    """PreferSame visits regions in descending order of this key: min(candidates in the region, n).
+    Regions that can satisfy the request alone (>= n candidates) therefore all get the top key n and
+    are visited before any smaller region - what 'as few regions as possible' rests on."""
+    cands = [f for k, f in funcs.items() if re.search(r"processor_set_builder.*::take::\{closure#\d+\}$", k)
+             and f.locals.get("_0", "") == "usize" and any("Ord>::min(" in (b.term[0] if b.term else "") for b in f.blocks.values())]
+    if len(cands) != 1:
+        raise S.Unsupported("PreferSame sort-key closure not found exactly once (%d)" % len(cands))
+    fn = cands[0]
+    ex = S.SymExec(funcs, OPAQUE, {})
+    count, rlen, nregions = bv("count"), bv("region_len"), bv("number_of_regions")
+    # closure env: (&HashMap candidates, &usize count); the map's own length is tracked so that a key that
+    # depends on it (instead of on count) is visible
+    env = {"_1": ("REFVAL", ("TUPLE", [("MAP", "candidates"), ("REFVAL", count)])), "_2": ("REFVAL", z3.BitVec("region_id", 32)),
+           "@len:region": rlen, "@len:map": nregions}
+    paths = ex.run(fn, "bb0", env, stop=())
+    viol = []
+    for pa in paths:
+        if pa.outcome[0] != "RETURN":
+            r, m, s = check([count != 0] + pa.pc)
+            out["queries"].append(dict(q="S6 PreferSame sort key: %s path infeasible" % pa.outcome[0].lower(), result=str(r), s=s))
+            if r != z3.unsat:
+                out["noverdict"].append("S6 panic path feasible or unknown: %s" % (pa.outcome,))
+            continue
+        key = pa.outcome[1]
+        if not S.is_bv(key):
+            raise S.Unsupported("sort key %r" % (key,))
+        post = key == z3.If(z3.ULE(rlen, count), rlen, count)
+        r, m, s = check([count != 0, rlen != 0] + pa.pc + [z3.Not(post), z3.ULE(count, 8), z3.ULE(rlen, 8), z3.ULE(nregions, 4), nregions != 0])
+        if r == z3.unsat:
+            r, m, s2 = check([count != 0, rlen != 0] + pa.pc + [z3.Not(post)])
+            s += s2
+        out["queries"].append(dict(q="S6 PreferSame sort key = min(candidates in the region, n)", result=str(r), s=s))
+        if r == z3.sat:
+            viol.append(dict(label="PreferSame orders regions by a different key than min(region size, n)", line=None, policy="prefer_same_order",
+                             assignment=dict(count=m.eval(count, True).as_long(), region_len=m.eval(rlen, True).as_long(), regions=m.eval(nregions, True).as_long(),
+                                             key=m.eval(key, True).as_long())))
+        elif r != z3.unsat:
+            out["noverdict"].append("S6: solver %s" % r)
+    out["functions"].append("%s = PreferSame region sort key (MIR, %d paths)" % (fn.name.split(">::")[-1], len(paths)))
+    return viol
+
+
 def replay(v, repo):
     nd = os.path.join(M.VERIF, "native", "selection_replay")
     cache = os.environ.get("FOLO_VERIF_CACHE") or os.path.join(M.VERIF, ".cache")
@@ -598,7 +643,12 @@ def replay(v, repo):
     n = a["count"]
     # candidate hardware shapes (region sizes) derived from the assignment; the violation is
     # reproduced if the real crate breaks C09's cardinality clause on any of them
-    if pol == "prefer_same":
+    if pol == "prefer_same_order":
+        # a region that can satisfy the request alone next to smaller ones: the result must stay inside one region
+        shapes = [[max(1, n - 1), n + 1], [max(1, n // 2), n + 3, max(1, n // 2)], [n + 1] + [max(1, n - 1)] * 3,
+                  (5, [2, 6]), (8, [3, 9, 3]), (6, [2, 2, 7]), (7, [4, 4, 4, 8])]
+        pol = "prefer_same_one_region"
+    elif pol == "prefer_same":
         shapes = [[a["processors_len"], a["region_len"]] if a["processors_len"] else [a["region_len"]]]
     elif pol == "any":
         shapes = [[a["all_len"]]]
@@ -608,7 +658,8 @@ def replay(v, repo):
         shapes = [[1] * max(1, a["regions"]), [2] * max(1, a["regions"])]
     else:
         shapes = [[a["region_len"]], [a["region_len"], a["region_len"]]]
-    if n > 64 or any(x > 64 or x == 0 for sh in shapes for x in sh) or any(len(sh) > 65 for sh in shapes):
+    shapes = [sh if isinstance(sh, tuple) else (n, sh) for sh in shapes]
+    if n > 64 or any(x > 64 or x == 0 for (_, sh) in shapes for x in sh) or any(len(sh) > 65 for (_, sh) in shapes):
         return dict(skipped="assignment too large (or degenerate) to build as fake hardware: %s" % a)
     res = {}
     for prof in ("dev", "release"):
@@ -619,11 +670,11 @@ def replay(v, repo):
             continue
         exe = os.path.join(tdir, "debug" if prof == "dev" else "release", "folo_verif_selection_replay")
         res[prof] = dict(rc=0, tried=[])
-        for sizes in shapes:
-            r = subprocess.run([exe, pol, str(n)] + [str(x) for x in sizes], capture_output=True, text=True, timeout=120)
-            res[prof]["tried"].append([pol, n] + sizes)
+        for (nn, sizes) in shapes:
+            r = subprocess.run([exe, pol, str(nn)] + [str(x) for x in sizes], capture_output=True, text=True, timeout=120)
+            res[prof]["tried"].append([pol, nn] + sizes)
             if r.returncode != 0:
-                res[prof].update(rc=r.returncode, stderr=r.stderr[-300:], stdout=r.stdout[-200:], args=[pol, n] + sizes)
+                res[prof].update(rc=r.returncode, stderr=r.stderr[-300:], stdout=r.stdout[-200:], args=[pol, nn] + sizes)
                 break
     return res
 
@@ -667,7 +718,8 @@ def main():
         print(json.dumps(out))
         return
     for name, q in (("s1_any", lambda: s1_any(fn, funcs, out)), ("s2_prefer_same", lambda: s2_prefer_same(fn, funcs, out)), ("s3_require_same_filter", lambda: s3_require_same_filter(funcs, out)),
-                    ("s4_prefer_different", lambda: s4_prefer_different(fn, funcs, out)), ("s5_require_different", lambda: s5_require_different(fn, funcs, out))):
+                    ("s4_prefer_different", lambda: s4_prefer_different(fn, funcs, out)), ("s5_require_different", lambda: s5_require_different(fn, funcs, out)),
+                    ("s6_prefer_same_sort_key", lambda: s6_prefer_same_sort_key(funcs, out))):
         try:
             viol += q()
         except (S.Unsupported, KeyError, IndexError, AttributeError) as e:
